@@ -104,7 +104,7 @@ impl Socket<Blocking> {
 use super::Nonblocking;
 impl Socket<Nonblocking> {
     pub fn new(bind_to: &str) -> Result<Self> {
-        Socket::__new(bind_to, None, None)
+        Self::new_with_skbuf(bind_to, None, None)
     }
 
     pub fn new_with_skbuf(
